@@ -144,6 +144,11 @@ func (ex *Exec) invoke(st *State, fv Value, callee *ssa.Function, args []Value, 
 		}
 	}
 	name := callee.String()
+	if r, ok := ex.redirect[name]; ok {
+		// harness-provided model of this function (listed in evidence as a stub)
+		ex.stubSeen["redirect:"+name+" -> "+r.Name()] = true
+		callee, name, binds = r, r.String(), nil
+	}
 	if s, ok := ex.lookupStub(callee, name); ok {
 		ex.stubSeen[name] = true
 		s(&CallCtx{ex: ex, st: st, fn: callee, name: name, args: args, instr: instr, retTo: retTo, isDef: isDefer, sig: callee.Signature})
